@@ -24,5 +24,7 @@ ShlOK == \A a \in Limbs : \A sh \in 0..6 : Val(WShl(a, sh)) = (Val(a) * (2 ^ sh)
 MulOK == \A a \in Limbs : \A m \in 0..2 : Val(WMulSmall(a, m)) = (Val(a) * m) % (B * B * B)
 SmallOK == \A x \in 0..(B * B - 1) : Val(WOfSmall(x)) = x
 
-Inv == ShlOK /\ MulOK /\ SmallOK /\ AddOK /\ HalfOK /\ LeqOK /\ OfOK /\ MinOK /\ SumOK
+SubOK == \A a \in Limbs : \A b \in Limbs : (Val(b) <= Val(a)) => Val(WSub(a, b)) = Val(a) - Val(b)
+
+Inv == SubOK /\ ShlOK /\ MulOK /\ SmallOK /\ AddOK /\ HalfOK /\ LeqOK /\ OfOK /\ MinOK /\ SumOK
 ===============================================================================
